@@ -451,6 +451,7 @@ class Context:
 
         arr_constructor = JSCallableObject(array_constructor)
         arr_constructor._prototype = array_prototype
+        arr_constructor.set("prototype", array_prototype)
         array_prototype.set("constructor", arr_constructor)
 
         # Store for other uses
@@ -1457,6 +1458,7 @@ class Context:
             self._enter_container(path, value)
             try:
                 arr = JSArray()
+                arr._prototype = self._array_prototype
                 for elem in value:
                     arr.push(self._to_js(elem, path))
                 return arr
@@ -1466,7 +1468,7 @@ class Context:
             path = [] if _path is None else _path
             self._enter_container(path, value)
             try:
-                obj = JSObject()
+                obj = JSObject(self._object_prototype)
                 for k, v in value.items():
                     obj.set(str(k), self._to_js(v, path))
                 return obj
